@@ -37,6 +37,63 @@ func (c *ctx) isRootField(e ast.Expr, root *ast.Ident, field string) bool {
 	return ok && f == field
 }
 
+// opArm is one arm of a case distinction on `<root>.Op`: the values compared with, and the statements.
+type opArm struct {
+	labels []ast.Expr
+	body   []ast.Stmt
+}
+
+// opArms reads a case distinction on `<root>.Op` written either as
+//
+//	switch root.Op { case "a", "b": …  case "c": … [default: …] }
+//
+// or as the chain
+//
+//	if root.Op == "a" || root.Op == "b" { … } else if root.Op == "c" { … } [else { … }]
+//
+// (every condition a disjunction of `root.Op == <value>`; no init statements).  The arms are returned
+// in source order; the default / final else has no labels.  ok = false for any other statement.
+func (c *ctx) opArms(st ast.Stmt, root *ast.Ident) (arms []opArm, ok bool) {
+	switch x := st.(type) {
+	case *ast.SwitchStmt:
+		if x.Init != nil || x.Tag == nil || !c.isRootField(x.Tag, root, "Op") {
+			return nil, false
+		}
+		for _, cc := range caseClauses(x.Body) {
+			arms = append(arms, opArm{cc.List, cc.Body})
+		}
+		return arms, true
+	case *ast.IfStmt:
+		for cur := x; cur != nil; {
+			if cur.Init != nil || cur.Body == nil {
+				return nil, false
+			}
+			arm := opArm{body: cur.Body.List}
+			for _, alt := range flatten(cur.Cond, token.LOR) {
+				b, isBin := alt.(*ast.BinaryExpr)
+				if !isBin || b.Op != token.EQL || !c.isRootField(b.X, root, "Op") {
+					return nil, false
+				}
+				arm.labels = append(arm.labels, b.Y)
+			}
+			arms = append(arms, arm)
+			switch e := cur.Else.(type) {
+			case *ast.IfStmt:
+				cur = e
+			case *ast.BlockStmt:
+				arms = append(arms, opArm{body: e.List})
+				cur = nil
+			case nil:
+				cur = nil
+			default:
+				return nil, false
+			}
+		}
+		return arms, true
+	}
+	return nil, false
+}
+
 // lenArgs: e is `len(<root>.Args)`.
 func (c *ctx) isLenArgs(e ast.Expr, root *ast.Ident) bool {
 	fn, call, ok := funcCall(e)
@@ -481,23 +538,20 @@ func (c *ctx) builderFacts() *leanFile {
 					if kind == "" || doVar == nil {
 						continue
 					}
-					var inner *ast.SwitchStmt
+					var inner []opArm
 					for _, st := range cc.Body {
-						if x, ok := st.(*ast.SwitchStmt); ok && x.Tag != nil && c.isRootField(x.Tag, root, "Op") {
-							inner = x
+						if arms, ok := c.opArms(st, root); ok {
+							inner = arms
 						}
 					}
-					if inner == nil {
-						continue
-					}
-					for _, ic := range caseClauses(inner.Body) {
-						for _, lab := range ic.List {
+					for _, ic := range inner {
+						for _, lab := range ic.labels {
 							op, ok := strLit(lab)
 							if !ok {
 								op = "?:" + nosp(c.src(lab))
 							}
 							fn := "?"
-							if v, rhs, ok := opAssign(ic.Body); ok && c.sameIdent(v, doVar) && identName(rhs) != "" {
+							if v, rhs, ok := opAssign(ic.body); ok && c.sameIdent(v, doVar) && identName(rhs) != "" {
 								fn = identName(rhs)
 							}
 							if kind == "numericQuery" {
